@@ -283,7 +283,7 @@ def check_map_point(variant, ptsl, ql, ctx, O=None, track=None):
         r = mapOnTrack(ENUCoords(q[0], q[1], 0.0), track)
         return (r[1], r[0].getX(), r[0].getY(), r[2], len(r))
     st, r = guard(call)
-    site = "mapOnTrack(coord)"
+    site = "mapOnTrack/point"
     if st != "ok":
         _raised(site, O, st, r, ctx, case)
         return
@@ -306,7 +306,6 @@ def check_map_track(variant, ptsl, qls, ctx, Os=None, track=None):
     ctx.oblige("track_form")
     track = track or _mk_track(variant, pts)
     qtrack = _mk_track(variant, qs)
-    before = (qtrack.getX(), qtrack.getY(), track.getX(), track.getY())
 
     def call():
         out = mapOnTrack(qtrack, track)
@@ -316,7 +315,7 @@ def check_map_track(variant, ptsl, qls, ctx, Os=None, track=None):
             rows.append((out.getObsAnalyticalFeature("dist", k), p.getX(), p.getY(), out.getObsAnalyticalFeature("edge", k)))
         return rows
     st, r = guard(call)
-    site = "mapOnTrack(track)"
+    site = "mapOnTrack/track"
     if st != "ok":
         # one raising query aborts the whole call: the defect model must predict it for one of them
         Ox = dict(Os[0], zde=any(O["zde"] for O in Os))
@@ -324,9 +323,6 @@ def check_map_track(variant, ptsl, qls, ctx, Os=None, track=None):
         return
     if len(r) != len(qs):
         ctx.violation(site + "/malformed-result", case, "one output per query expected, got %d for %d" % (len(r), len(qs)))
-        return
-    if (qtrack.getX(), qtrack.getY(), track.getX(), track.getY()) != before:
-        ctx.violation(site + "/modifies-its-arguments", case, None)
         return
     for k, (O, q, row) in enumerate(zip(Os, qs, r)):
         vals = [G.num(v) for v in row[:3]]
